@@ -326,3 +326,124 @@ def inline_new_helpers(j, known):
     j["fns"] = [f for f in j["fns"] if f["key"] not in drop]
     report["dropped"] = sorted(drop)
     return report
+
+
+# ------------------------------------------------------------------------------------------
+# moved / renamed / de-duplicated functions: give them back the name the rules know them by
+# ------------------------------------------------------------------------------------------
+def _module_of(key):
+    """leading module path of a function key (`priority_queue::PriorityQueue::pop` -> `priority_queue`;
+    `<double_priority_queue::DoublePriorityQueue as Extend<(..)>>::extend` -> `double_priority_queue`)"""
+    m = re.search(r"([a-z_][a-z0-9_]*(?:::[a-z_][a-z0-9_]*)*)::", key.lstrip("<&").replace("mut ", ""))
+    return m.group(1) if m else ""
+
+
+def _sig(f):
+    return (f.get("kind"), tuple(t["s"] for t in f.get("inputs", [])), (f.get("output") or {}).get("s"))
+
+
+def _clone_fn_as(j, f, newkey):
+    """copy of function f (with its closures) under the key newkey; -> renaming used"""
+    ren = {f["key"]: newkey}
+    todo = [f["key"]]
+    fam = []
+    while todo:
+        k = todo.pop()
+        for g in j["fns"]:
+            if g.get("kind") == "Closure" and g.get("parent_fn") == k and g["key"] not in ren:
+                ren[g["key"]] = newkey + g["key"][len(f["key"]):] if g["key"].startswith(f["key"]) else g["key"] + "@" + newkey
+                fam.append(g)
+                todo.append(g["key"])
+    out = []
+    for g in [f] + fam:
+        h = copy.deepcopy(g)
+        h["key"] = ren[g["key"]]
+        if h.get("parent_fn") in ren:
+            h["parent_fn"] = ren[h["parent_fn"]]
+        if h.get("body"):
+            _rename_keys(h["body"], ren)
+        _rename_keys(h.get("promoted") or [], ren)
+        h["alias_of"] = g["key"]
+        out.append(h)
+    j["fns"].extend(out)
+    return ren
+
+
+def alias_moved(j, known, sigs):
+    """A function of the reviewed inventory that is gone while a function with the same signature appeared (same name in
+    another module = moved; another name under the same parent = renamed) or an identical sibling survived elsewhere
+    (de-duplicated) is analysed under its reviewed name.  Names carry no meaning for the rules beyond identifying the
+    role: the body that now plays the role is still checked in full."""
+    present = {f["key"]: f for f in j["fns"] if f.get("kind") != "Closure"}
+    missing = [k for k in sorted(known) if k not in present and k in sigs and sigs[k].get("kind") in ("Fn", "AssocFn") and not k.startswith("<")]
+    new = {k: f for k, f in present.items() if k not in known and f.get("kind") in ("Fn", "AssocFn") and not k.startswith("<")}
+    report = []
+    if not missing:
+        return report
+    targets = {}   # missing old key -> present key that plays its role
+    for o in missing:
+        so = (sigs[o]["kind"], tuple(sigs[o]["inputs"]), sigs[o]["output"])
+        leaf = o.rsplit("::", 1)[-1]
+        parent = o.rsplit("::", 1)[0] if "::" in o else ""
+        moved = [k for k, f in new.items() if k.rsplit("::", 1)[-1] == leaf and _sig(f) == so]
+        renamed = [k for k, f in new.items() if (k.rsplit("::", 1)[0] if "::" in k else "") == parent and _sig(f) == so]
+        dedup = [k for k, f in present.items() if k in known and k != o and k.rsplit("::", 1)[-1] == leaf and _sig(f) == so]
+        if len(moved) == 1:
+            targets[o] = (moved[0], "moved")
+        elif not moved and len(renamed) == 1:
+            targets[o] = (renamed[0], "renamed")
+        elif not moved and not renamed and len(dedup) == 1:
+            targets[o] = (dedup[0], "de-duplicated")
+    if not targets:
+        return report
+    by_target = {}
+    for o, (n, how) in targets.items():
+        by_target.setdefault(n, []).append((o, how))
+    callee_map = {}   # present key -> list of (old key) it stands for
+    for n, olds in by_target.items():
+        f = present[n]
+        keep_n = n in known
+        if len(olds) == 1 and not keep_n:
+            o, how = olds[0]
+            ren = {n: o}
+            for g in j["fns"]:
+                if g.get("kind") == "Closure" and g["key"].startswith(n + "::"):
+                    ren[g["key"]] = o + g["key"][len(n):]
+            for g in j["fns"]:
+                if g["key"] in ren:
+                    g["key"] = ren[g["key"]]
+                if g.get("parent_fn") in ren:
+                    g["parent_fn"] = ren[g["parent_fn"]]
+                if g.get("body"):
+                    _rename_keys(g["body"], ren)
+                _rename_keys(g.get("promoted") or [], ren)
+            f["alias_of"] = n
+            report.append("%s: %s is analysed as %s" % (how, n, o))
+        else:
+            for o, how in olds:
+                _clone_fn_as(j, f, o)
+                report.append("%s: %s also stands for %s" % (how, n, o))
+            callee_map[n] = [o for o, _ in olds] + ([n] if keep_n else [])
+    if callee_map:
+        # calls to a shared function are attributed to the reviewed name that belongs to the caller's module
+        def fix(x, caller_mod):
+            if isinstance(x, dict):
+                k = x.get("key")
+                if isinstance(k, str) and k in callee_map and ("name" in x or "krate" in x):
+                    cands = callee_map[k]
+                    best = [c for c in cands if _module_of(c) == caller_mod] or [c for c in cands if caller_mod.startswith(_module_of(c)) and _module_of(c)]
+                    if best and best[0] != k:
+                        x["key"] = best[0]
+                for v in x.values():
+                    fix(v, caller_mod)
+            elif isinstance(x, list):
+                for v in x:
+                    fix(v, caller_mod)
+        for g in j["fns"]:
+            if g.get("body"):
+                fix(g["body"], _module_of(g["key"] if g.get("kind") != "Closure" else g["key"]))
+        # the shared function itself disappears when it is not a reviewed name
+        drop = {n for n in callee_map if n not in known}
+        if drop:
+            j["fns"] = [g for g in j["fns"] if not (g["key"] in drop or any(g["key"].startswith(d + "::{") for d in drop))]
+    return report
